@@ -17,6 +17,10 @@ def run(ck):
     c1, c2 = ck.path("grid.ndjson"), ck.path("extra.ndjson")
     ck.tlc("InterpMC", "MC_Interp.%s.cfg" % ck.tier, env={"VF_OUT": c1, "VF_OUT2": c2}, timeout=1500)
     ck.cov["exhaustive"] = True
+    # unbounded, machine-checked (TLAPS): for N = 1, 2, 3 in closed form and for EVERY denominator, fraction and corner value the
+    # weights as coded sum to D^N, the weighted corner sum as coded equals the textbook recursion over the axes, the result lies
+    # within the range of the corner values (N = 1, 2), and lattice points return the corner value
+    ck.tlaps("InterpProofs", [], timeout=900)
     g = vf.read_ndjson(c1)
     x = [c for c in g if c["n"] == 2][1]
     ck.sample({"grid_case": {"n": 2, "ext": x["ext"], "D": x["D"], "cells": x["cells"][:3], "query": x["queries"][5]}})
